@@ -1435,9 +1435,21 @@ def guard_worlds(a, b, seed, limit=40):
     where the comparison has the other truth value, searched in a small pool of special values for its free symbols.  Each world is
     (env, tie): it is a numeric witness point, nothing else."""
     leaves = []
+    worlds, seenl = [], set()
     for g in select_guards(lift(a) - lift(b)):
         _guard_leaves(g, leaves)
-    worlds, seenl = [], set()
+        for truth in (True, False):
+            eqs = {}
+            _guard_equalities(g, truth, eqs)
+            if eqs:
+                env = {}
+                try:
+                    for _pass in range(3):
+                        for at, ex in eqs.items():
+                            env[at] = evalf(ex, dict(env), seed)
+                    worlds.append((env, 1e-9, f"guard {'holds' if truth else 'fails'} through its equalities", -1))
+                except (AlgError, ZeroDivisionError, OverflowError):
+                    pass
     li = -1
     for op, x, y in leaves:
         d = x - y
@@ -1498,7 +1510,8 @@ def _guard_equalities(g, truth, out):
             for x, y in ((g[3], g[4]), (g[4], g[3])):
                 if x.is_monomial() and len(x.t) == 1:
                     ((m, c),) = x.t.items()
-                    if len(m) == 1 and m[0][1] == 1 and c == 1 and m[0][0].kind in ("sym", "psym") and m[0][0] not in atoms_of(y, deep=True):
+                    if len(m) == 1 and m[0][1] == 1 and c == 1 and (m[0][0].kind in ("sym", "psym") or m[0][0].kind.startswith("fn:")) \
+                            and m[0][0].kind != "fn:select" and m[0][0] not in atoms_of(y, deep=True):
                         out.setdefault(m[0][0], y)
                         return
     elif kind == "not":
@@ -1583,10 +1596,25 @@ def decide(a, b, budget=1_000_000, _cases=True, seconds=30):
     if len(onesided) >= 2 and not any(not x for x, _ in seps):
         return "differ", onesided[0]
     # piecewise forms: also compare on the other side of, and exactly on, the boundary of every guard of a selection
-    covered, n_leaves, n_base = set(), 0, sum(1 for x, _ in seps if not x)
+    n_base = sum(1 for x, _ in seps if not x)
+    gsel = select_guards(d)
+    probes = [E.atom(Atom("fn:select", g, ONE, ZERO)) for g in gsel]
+    seen_truth = [set() for _ in gsel]
+
+    def note_truth(env_w, s_, tie_w):
+        for i_, pr in enumerate(probes):
+            try:
+                tv = evalf(pr, dict(env_w), seed=s_, tie=tie_w)
+            except (AlgError, ZeroDivisionError, OverflowError):
+                continue
+            if tv in (0.0, 1.0):
+                seen_truth[i_].add(tv)
+    if gsel:
+        for s in (1, 2, 3):
+            note_truth({}, s, 0.0)
     try:
         for s in (1, 2, 3):
-            ws, n_leaves = guard_worlds(a, b, s)
+            ws, _nl = guard_worlds(a, b, s)
             for env_w, tie_w, why_w, li_w in ws:
                 va, vb = evalf(a, dict(env_w), seed=s, tie=tie_w), evalf(b, dict(env_w), seed=s, tie=tie_w)
                 if va != va or vb != vb or abs(va) == float("inf") or abs(vb) == float("inf"):
@@ -1599,9 +1627,9 @@ def decide(a, b, budget=1_000_000, _cases=True, seconds=30):
                             ua, ub = evalf(a, dict(env2), seed=s2, tie=tie2), evalf(b, dict(env2), seed=s2, tie=tie2)
                             if ua == ua and ub == ub and abs(ua - ub) > 1e-6 * max(1.0, abs(ua), abs(ub)):
                                 return "differ", {"seed": s, "lhs": va, "rhs": vb, "point": why_w,
-                                                  "where": {str(k_.args[0]): v_ for k_, v_ in env_w.items()}}
+                                                  "where": {(str(k_.args[0]) if k_.kind in ("sym", "psym") else repr(k_)[:40]): v_ for k_, v_ in list(env_w.items())[:6]}}
                 else:
-                    covered.add((li_w, why_w.startswith("boundary")))
+                    note_truth(env_w, s, tie_w)
     except (AlgError, ZeroDivisionError, OverflowError):
         pass
     if _cases and select_guards(d, limit=1):
@@ -1613,9 +1641,9 @@ def decide(a, b, budget=1_000_000, _cases=True, seconds=30):
         # The exact case analysis ran out of budget.  Randomised identity testing (Schwartz-Zippel) over the regions of the guards: the two
         # piecewise forms agreed at >= 3 generic points and, for EVERY comparison guarding a selection, at points on its other side; they
         # are accepted as equal, and the obligation is recorded as decided that way.
-        if n_leaves and n_base >= 3 and {li for li, _ in covered} >= set(range(n_leaves)):
+        if gsel and n_base >= 3 and all(t_ == {0.0, 1.0} for t_ in seen_truth):
             RANDOMISED.append(1)
-            return "equal", {"by": "randomised identity test over the regions of the guards", "points": n_base + len(covered)}
+            return "equal", {"by": "randomised identity test over the regions of the guards (every guard seen to hold and to fail at tested points)", "points": n_base}
     saved = list(_WORK)
     saved_deadline = _DEADLINE[0]
     set_budget(budget, seconds=seconds)
